@@ -4,6 +4,7 @@ introduce (DISTINCT, the ROW_NUMBER filter, EXCEPT), stated on the reference sem
 -/
 import PrqlModel.Model.Preprocess
 import PrqlModel.Model.Rel
+import PrqlModel.Lemmas.SortBy
 namespace Lemmas.Preprocess
 open Model.Rel
 
@@ -154,6 +155,36 @@ theorem groupTake_all_columns_rows (resolve : Src → Table) (t : Table) (w : Na
     take_one_filter_eq k t.rows hkr, List.map_cons, List.map_nil]
   rw [← hlen, keyOf_range k, filter_range_none]
   simp
+
+/-- `group by_ (sort ks | take 1)`: exactly one row per group - the key columns of the result are the distinct keys of the
+input, each once, whatever the sort and whichever row is first -/
+theorem groupTake_first_keys (resolve : Src → Table) (t : Table) (by_ : List Nat) (ks : List SortKey) :
+    ((step resolve t (.groupTake by_ ks none (some 1))).rows.map fun r => r.take by_.length)
+      = dedup (t.rows.map (keyOf by_)) := by
+  simp only [step, groups, List.flatMap_map, List.map_flatMap]
+  conv => rhs; rw [← flatMap_singleton_id (dedup _)]
+  apply flatMap_congr'
+  intro k hk
+  have hk' : k ∈ t.rows.map (keyOf by_) := mem_of_mem_dedup k _ hk
+  obtain ⟨r0, hr0, hkr0⟩ := List.mem_map.mp hk'
+  have hmem0 : r0 ∈ (t.rows.filter fun r => keyOf by_ r == k) := List.mem_filter.mpr ⟨hr0, by simp [hkr0]⟩
+  cases hs : sortRows ks (t.rows.filter fun r => keyOf by_ r == k) with
+  | nil =>
+    have h1 := congrArg List.length hs
+    rw [Lemmas.SortBy.sortRows_eq, Lemmas.SortBy.length_isortBy] at h1
+    have : (t.rows.filter fun r => keyOf by_ r == k) = [] := List.length_eq_zero_iff.mp h1
+    rw [this] at hmem0
+    simp at hmem0
+  | cons x xs =>
+    have hx : x ∈ t.rows.filter (fun r => keyOf by_ r == k) := by
+      have : x ∈ sortRows ks (t.rows.filter fun r => keyOf by_ r == k) := by rw [hs]; simp
+      rw [Lemmas.SortBy.sortRows_eq] at this
+      exact Lemmas.SortBy.mem_isortBy.mp this
+    have hkx : keyOf by_ x = k := by simpa using (List.mem_filter.mp hx).2
+    have hlen : (keyOf by_ x).length = by_.length := by simp [keyOf]
+    simp only [takeRange, Option.getD_none, Nat.sub_self, List.drop_zero, Nat.sub_zero, List.take_succ_cons, List.take_zero,
+      List.map_cons, List.map_nil]
+    rw [List.take_left' hlen, hkx]
 
 /-! ### anti-join over all columns and EXCEPT -/
 
